@@ -285,15 +285,27 @@ theorem respondTerms_spec (q : Nat) (sval : Nat → Nat) (w : Option Nat) (vj vf
         · simp [Vec.set]
         · intro n hn; simp [Vec.set, hn]
 
+theorem placeTerms_nil (r : Vec) : placeTerms [] r = r := rfl
+
+theorem placeTerms_cons (t : Term) (ts : List Term) (r : Vec) :
+    placeTerms (t :: ts) r = match r t.s with
+      | some _ => placeTerms ts r
+      | none => placeTerms ts (r.set t.s 0) := by
+  unfold placeTerms
+  simp only [placeTermsB]
+  cases r t.s <;> rfl
+
+theorem placeTermsB_v (ts : List Term) (r : Vec) : (placeTermsB ts r).v = placeTerms ts r := rfl
+
 theorem placeTerms_spec : ∀ (ts : List Term) (r : Vec),
     Vec.le r (placeTerms ts r) ∧
     (∀ s, ((placeTerms ts r) s).isSome ↔ ((r s).isSome ∨ s ∈ termVars ts)) := by
   intro ts
   induction ts with
-  | nil => intro r; exact ⟨Vec.le_refl _, by simp [placeTerms, termVars]⟩
+  | nil => intro r; exact ⟨Vec.le_refl _, by simp [placeTerms_nil, termVars]⟩
   | cons t ts ih =>
     intro r
-    unfold placeTerms
+    rw [placeTerms_cons]
     cases hr : r t.s with
     | some x =>
       obtain ⟨h1, h2⟩ := ih r
